@@ -56,7 +56,7 @@ Section Both.
   Variable defs : list (str * prog).
   Variable f : nat.      (* the fuel handed to the operand evaluator and the operators is S f *)
 
-  Notation tev := (fun st => teval (eval_vexpr d defs (S f)) (apply_bin d (S f)) (fun u v => apply_un d u st v) (truthy d st)).
+  Notation tev := (teval (eval_vexpr d defs (S f)) (apply_bin d (S f)) (fun u v st0 => apply_un d u st0 v) (fun v st0 => truthy d st0 v)).
 
   Lemma truthy_inj : forall st v, truthy d st (inj v) = pv_truthy v.
   Proof. intros st [z|b]; reflexivity. Qed.
@@ -80,7 +80,7 @@ Section Both.
 
   (* both dialects evaluate the tree to CPython's value and leave the state alone *)
   Lemma tree_val_eval : forall (t : tree vexpr value) v st,
-    tree_val t = Some v -> tev st t st = Ok (inj v, st).
+    tree_val t = Some v -> tev t st = Ok (inj v, st).
   Proof.
     induction t as [x|x|u t1 IH|o l IHl r IHr]; intros v st H.
     - destruct x; try discriminate. cbn [tree_val] in H. destruct (in_int64 z); [|discriminate].
